@@ -6,7 +6,7 @@ CONSTANTS
   MinSpans = 1
   MaxCopy = 0
   Filters = {"none"}
-  Strides = {1, 2, 3}
+  Strides = {2, 3}
   MaxStep = 3
 CONSTRAINT StepBound
 INVARIANT TypeOK
